@@ -278,3 +278,13 @@ def run(ck, prog):
 
 
 EXPLANATION += (' (D) BBD tree partition: the cut-off is the midpoint only under a comparison with a bound, and the leaf test is a zero test (found and fixed: endless recursion for adjacent floating-point extremes, collapse of small-scale data).')
+
+
+# ------------------------------------------------------------------ generic: `while counter < bound` loops advance their counter
+_run_pre_progress = run
+
+
+def run(ck, prog):
+    _run_pre_progress(ck, prog)
+    from sa import progress
+    progress.run_rule(ck, prog, set(DIMENSION_FILES))
